@@ -226,6 +226,7 @@ runs:
 	sort.Slice(res.Sigs, func(i, j int) bool { return res.Sigs[i] < res.Sigs[j] })
 	sort.Slice(res.SigsNontrivial, func(i, j int) bool { return res.SigsNontrivial[i] < res.SigsNontrivial[j] })
 	sort.Slice(res.FnPairs, func(i, j int) bool { return res.FnPairs[i] < res.FnPairs[j] })
+	res.UnownedChoices = zzsimrt.MultiReadySelects + zzsimrt.UnorderedMapRanges
 	res.Digest = fmt.Sprintf("%x", h.Sum(nil))
 	ob, _ := json.Marshal(res)
 	if err := os.WriteFile(cmd.Out, ob, 0o644); err != nil {
